@@ -16,6 +16,10 @@
 (*             value of that phase (its base value under "N/A")             *)
 (*   TreeOK    tree()   : the printed tree has the system name as root, the *)
 (*             sources below it and exactly the parent -> child links of S  *)
+(*   SaveDocOK save()   : the document holds exactly the components of S,   *)
+(*             each with its kind, every parameter, its limits, its parent  *)
+(*             (a mux: its inputs in priority order), rail, group and phase *)
+(*             configuration, and the system phases in declared order       *)
 (*                                                                          *)
 (* Input : IOEnv.TRACE_FILE = JSON array of cases [id, what, st, sysname,   *)
 (*         params, limits, phases, tree, exc]; output as in TraceSolve.     *)
@@ -132,6 +136,42 @@ TreeOK(S, L, sysname) ==
   /\ {L[i][2] : i \in 2..Len(L)} = Names(S)
 
 -----------------------------------------------------------------------------
+(* save(): the written document D (flattened by the harness: one entry per    *)
+(* component with type, parameters, limits, the parent(s) it is listed under  *)
+(* - a mux: its "parents" list in priority order - and its rail / group /      *)
+(* phase configuration in the tables of the document)                         *)
+DocEntries(Doc, n) == {i \in DOMAIN Doc.comps : Doc.comps[i].name = n}
+DefaultLimit(key, lim) ==
+  /\ Len(lim) = 2 /\ IsNum(lim[1]) /\ IsNum(lim[2])
+  /\ DEq(DJ(lim[1]), IF key = "tp" THEN DE(-1, 6) ELSE DZero) /\ DEq(DJ(lim[2]), DE(1, 6))
+DocLimitsOK(S, n, e) ==
+  \* every limit the document holds is an applicable one, with the configured value - or the default when none was
+  \* configured -, and every configured applicable limit is in the document
+  /\ \A i \in DOMAIN e.limits :
+        LET key == e.limits[i][1] I == ConfLim(S, n, key) IN
+        /\ key \in AppLim(S, n)
+        /\ IF I = {} THEN DefaultLimit(key, e.limits[i][2])
+           ELSE e.limits[i][2] = S.comps[n].pay.limits[CHOOSE j \in I : TRUE][2]
+  /\ \A j \in DOMAIN S.comps[n].pay.limits :
+        S.comps[n].pay.limits[j][1] \in AppLim(S, n) => \E i \in DOMAIN e.limits : e.limits[i][1] = S.comps[n].pay.limits[j][1]
+DocEntryOK(S, n, e) ==
+  /\ e.type = Kind(S, n)
+  /\ e.par = S.par[n]                       \* the inputs of a mux in their declared order
+  /\ e.rail = S.comps[n].rail
+  /\ e.group = S.comps[n].group
+  /\ e.pconf = S.pconf[n]
+  /\ e.params = Par(S, n)                   \* every parameter, tables and resistance lists included, nothing else
+SaveDocOK(S, Doc, sysname) ==
+  /\ ~Doc.isnone
+  /\ Doc.sysname = sysname
+  /\ Doc.sysph = S.sysph                      \* the phases in declared order with their durations
+  /\ {Doc.comps[i].name : i \in DOMAIN Doc.comps} = Names(S)
+  /\ {Doc.tablekeys[i] : i \in DOMAIN Doc.tablekeys} = Names(S)
+  /\ \A n \in Names(S) :
+        /\ Cardinality(DocEntries(Doc, n)) = 1
+        /\ LET e == Doc.comps[CHOOSE i \in DocEntries(Doc, n) : TRUE] IN DocEntryOK(S, n, e) /\ DocLimitsOK(S, n, e)
+
+-----------------------------------------------------------------------------
 Modelled(S) == WellFormed(S) /\ \A n \in Names(S) : ShapeOK(S, n)
 
 CaseClauses(c, S) ==
@@ -144,10 +184,14 @@ CaseClauses(c, S) ==
      Cl("C16.LimitsShowNonDefault", c.exc = "" /\ OneRowEach(S, c.params) /\ OneRowEach(S, c.limits),
         \A n \in Names(S) : LimitRowOK(S, n, RowOf(c.params, n)) /\ LimitRowOK(S, n, RowOf(c.limits, n))),
      Cl("C16.PhasesShowConfig", c.exc = "", PhasesOK(S, c.phases)),
-     Cl("C16.TreeShowsStructure", c.exc = "", TreeOK(S, c.tree, c.sysname)) >>
+     Cl("C16.TreeShowsStructure", c.exc = "", TreeOK(S, c.tree, c.sysname)),
+     \* the saved document describes exactly the system (C16: a report of the final structure; C12: what from_file reads)
+     Cl("C16.SaveDocShowsSystem", c.exc = "", SaveDocOK(S, c.savedoc, c.sysname)),
+     Cl("C12.SaveDoc", c.exc = "", SaveDocOK(S, c.savedoc, c.sysname)) >>
 
 AllClauseNames == {"C16.ReportsSucceed.Descriptive", "C16.LiveComponents.params", "C16.ParamsShowConfig",
-                   "C16.LimitsShowNonDefault", "C16.PhasesShowConfig", "C16.TreeShowsStructure", "note.Unmodelled", "events"}
+                   "C16.LimitsShowNonDefault", "C16.PhasesShowConfig", "C16.TreeShowsStructure", "C16.SaveDocShowsSystem", "C12.SaveDoc",
+                   "note.Unmodelled", "events"}
 
 RECURSIVE SetToSeq(_)
 SetToSeq(X) == IF X = {} THEN <<>> ELSE LET x == CHOOSE x \in X : TRUE IN <<x>> \o SetToSeq(X \ {x})
